@@ -204,6 +204,10 @@ def strip_cfg_test(toks, path):
                 die(f"{path}:{t.line}: unbalanced attribute")
             inner = [x.t for x in toks[i + 2:close]]
             is_test = len(inner) >= 3 and inner[0] == "cfg" and "test" in inner and "not" not in inner
+            # verification hooks (`#[cfg(feature = "verif")]`) are not part of the shipped library either
+            is_hook = (len(inner) >= 5 and inner[0] == "cfg" and "feature" in inner and "not" not in inner
+                       and any(x.strip('"') == "verif" for x in inner))
+            is_test = is_test or is_hook
             if is_test:
                 j = close + 1
                 # further attributes
